@@ -102,7 +102,7 @@ def read_ndjson(path):
 _stat_re = re.compile(r"^(\d+) states generated, (\d+) distinct states found")
 
 def tlc(run, module, cfg_text, name=None, workers=1, timeout=900, heap="6g", extra_args=(),
-        simulate=None, count=True, coverage=False):
+        simulate=None, count=True, coverage=False, extra_files=None):
     """Run TLC on spec/<module>.tla with the given cfg text in a private copy of
     the spec directory. Returns (stdout lines). Raises Infra on any TLC error
     that is not a property/invariant report (those do not occur: judges print
@@ -111,6 +111,9 @@ def tlc(run, module, cfg_text, name=None, workers=1, timeout=900, heap="6g", ext
     d = run.path("tlc." + name)
     shutil.rmtree(d, ignore_errors=True)
     shutil.copytree(SPEC, d, ignore=shutil.ignore_patterns("states", "*.old", ".tlacache"))
+    for fn, content in (extra_files or {}).items():
+        with open(os.path.join(d, fn), "w") as f:
+            f.write(content)
     cfg = os.path.join(d, module + ".cfg")
     with open(cfg, "w") as f:
         f.write(cfg_text)
@@ -205,6 +208,25 @@ def universe(run, ecos=None):
         if not u[e]:
             raise Infra("empty universe for " + e)
     return u
+
+def tla_str(t):
+    return '"' + t.replace("\\", "\\\\").replace('"', '\\"') + '"'
+
+def tla_fun_of_seqs(name, d):
+    """TLA+ definition name == (k1 :> <<...>>) @@ ... for a dict of string lists"""
+    items = ["(%s :> <<%s>>)" % (tla_str(k), ", ".join(tla_str(x) for x in v)) for k, v in sorted(d.items())]
+    return "%s == %s\n" % (name, " @@ ".join(items))
+
+def accepted(run, exe, U):
+    """ask the real parser which universe members it accepts: {eco: [texts]} (order kept)"""
+    jobs = [{"k": "accept", "eco": e, "texts": [t for t, _ in U[e]]} for e in sorted(U)]
+    jp, ep = run.path("acc.jobs"), run.path("acc.ev")
+    write_ndjson(jp, jobs)
+    run_harness(run, exe, jp, ep)
+    out = {}
+    for ev in read_ndjson(ep):
+        out[ev["eco"]] = [t for t, ok in zip(ev["texts"], ev["ok"]) if ok]
+    return out
 
 def pick(members, n, rnd):
     """Deterministic (seeded) sub-universe of at most n members."""
